@@ -58,6 +58,35 @@ def parse_docs(hdr):
     return out
 
 
+def parse_source_remarks(prog):
+    """{function: spec} from remarks inside function bodies of src/ that name the buffers which may overlap
+    (`// (буферы key, header и token могут пересекаться)` in bignKeyWrap): the code states the tolerance itself, so its
+    order of reads and writes has to provide it"""
+    import glob
+    out = {}
+    by_file = {}
+    for f in prog.all_funcs():
+        if f.body is not None:
+            by_file.setdefault(f.relfile, []).append(f)
+    for path in sorted(glob.glob(os.path.join(ir.REPO, "src", "**", "*.c"), recursive=True)):
+        rel = os.path.relpath(path, ir.REPO)
+        try:
+            lines = open(path, encoding="utf-8", errors="replace").read().split("\n")
+        except OSError:
+            continue
+        for i, ln in enumerate(lines, 1):
+            mm = re.search(r"//.*[Бб]уферы (\w+), (\w+) и (\w+) могут пересекаться", ln)
+            if not mm:
+                continue
+            owner = None
+            for f in by_file.get(rel, ()):
+                if f.line <= i and (owner is None or f.line > owner.line):
+                    owner = f
+            if owner is not None:
+                out[owner.name] = (("set",) + mm.groups(), rel)
+    return out
+
+
 def pairs_for(f, spec):
     ptr = [p["n"] for p in f.params if p.get("p") and not p.get("pf")]
     if spec[0] == "all":
@@ -386,8 +415,15 @@ def run(tier, seed=0):
     A = Analysis(prog)
     ninst = 0
     npairs = 0
-    for hdr in HEADERS:
-        specs = parse_docs(hdr)
+    src_specs = parse_source_remarks(prog)
+    groups = [(hdr, parse_docs(hdr)) for hdr in HEADERS]
+    by_src = {}
+    for name, (spec, rel) in src_specs.items():
+        if not any(name in sp for _, sp in groups):
+            by_src.setdefault(rel, {})[name] = spec
+    groups += sorted(by_src.items())
+    res.coverage["source_remark_instances"] = sorted(n_ for sp in by_src.values() for n_ in sp)
+    for hdr, specs in groups:
         for name, spec in sorted(specs.items()):
             f = prog.funcs.get(name)
             if f is None or f.body is None:
